@@ -159,6 +159,20 @@ def run_task(t):
         return {'ok': {'git': bool(PP.which('git')), 'diff3': bool(PP.which('diff3'))}}
     if op == 'probe':
         return {'ok': probe()}
+    if op == 'clear_all':
+        # the real clear-all arm of resolve_conflicted_decisions_list on given builders (decisions installed as they are)
+        import nbdime.merging.strategies as S
+        from nbdime.merging.decisions import MergeDecisionBuilder
+        out = []
+        for c in t['cases']:
+            B = MergeDecisionBuilder()
+            B.decisions = to_decisions(c['decisions'])
+            try:
+                S.resolve_conflicted_decisions_list(tuple(c['path']), c['base'], B, 'clear-all')
+                out.append({'ok': clean([dict(d) for d in B.decisions])})
+            except Exception as e:
+                out.append({'err': type(e).__name__})
+        return {'ok': out}
     if op == 'choices':
         out = {}
         for a in parser()._actions:
